@@ -8,24 +8,41 @@ LEVEL = "proof"
 EXTRA_THEOREM_FILES = ["C15HevcTheorems.v", "C15HevcSliceTheorems.v", "C15HevcConfTheorems.v"]
 MANIFEST = {
     "technique": "Coq proof (parser model applied to an independent serialiser of the standard's syntax) + differential "
-                 "correspondence: the extracted serialiser generates NAL units from random field values, the real Go parsers "
-                 "and the extracted parser models parse them",
-    "level_text": "Theorems (coq/c15/C15Theorems.v), for ALL valid field assignments (no bound on counts or values inside the "
-                  "standard's ranges): C15_avc_sps / C15_avc_sps_all_valid: the model of avc.ParseSPSNALUnit applied to the "
-                  "independent serialiser's NAL unit returns exactly the chosen values (all profile_idc branches, scaling lists, "
-                  "poc types 0-2, frame/field, cropping, VUI with HRD, both parseVUIBeyondAspectRatio modes), width/height by "
-                  "the cropping formula; C15_avc_sps_offsets_refuted: negative se(v) offsets are not returned (known finding F2: "
-                  "uint fields); C15_avc_pps: the same for avc.ParsePPSNALUnit (every slice-group map type, more_rbsp_data tail, "
-                  "scaling lists with and without transform_8x8, trailing bits). MODELLED and tied to the code by correspondence, "
-                  "NOT yet proved: avc.ParseSliceHeader (pps id -> sps id resolution, all slice types, size = bytes consumed; the "
-                  "spsID defect was found here and fixed), AVC decoder configuration record and codec string. NOT modelled: the "
-                  "HEVC VPS/SPS/PPS/slice-header parsers, hevc decoder configuration record and codec string - for them the "
-                  "property is not decided by this check (partial).",
-    "level_note": "Trusted: Coq kernel, extraction, OCaml/Go glue, the hand-written serialisers of C15Spec.v (my transcription of the "
-                  "syntax tables of ISO/IEC 14496-10 section 7.3.2, cross-checked on every run against the real parser and the "
-                  "captured parameter sets of the repository's test data) and the hand transcription C15Model.v of the Go parsers "
-                  "(tied to /repo by the correspondence on generated NAL units only). The bit reader in the proofs is the ideal "
-                  "bit-list reader; the correspondence additionally runs the C13 EBSP-reader instance.",
+                 "correspondence: the extracted serialiser generates NAL units / configuration records from random field values, "
+                 "the real Go parsers and the extracted parser models parse them; failing-input search = the real parsers against "
+                 "the coded values",
+    "level_text": "Proved for ALL valid field assignments (no bound on counts or values inside the standard's ranges; theorems in "
+                  "coq/c15/C15Theorems.v, C15HevcTheorems.v, C15HevcSliceTheorems.v, C15HevcConfTheorems.v, all closed under the "
+                  "global context): AVC - C15_avc_sps / _all_valid (every profile_idc branch, scaling lists, poc types 0-2, "
+                  "frame/field, cropping, VUI+HRD), C15_avc_dims (width/height by the cropping formula), C15_avc_pps (all "
+                  "slice-group map types, more_rbsp_data tail, scaling lists), C15_avc_slice (every slice type, arbitrary "
+                  "spsmap/ppsmap incl. pps id != sps id: PPS resolved through the slice's pps id, SPS through that PPS's sps id, "
+                  "Size = bytes the header occupies; guard: no slice-group map type 3..5), C15_avc_confrec / _decode / _encode / "
+                  "_roundtrip and C15_avc_codec_string (record and avc1.PPCCLL carry profile, compatibility, level, chroma format, "
+                  "bit depths and the NAL units verbatim; Encode = the 14496-15 bit layout; decode(encode) round trip); the two "
+                  "known findings are pinned by C15_avc_sps_offsets_refuted (F2) and C15_avc_slice_fmo_refuted (F7). "
+                  "HEVC - C15_hevc_sps (profile_tier_level with sub-layers, conformance window, sub-layer ordering, scaling list "
+                  "data, st_ref_pic_set incl. inter-RPS prediction chains of any depth with NumDeltaPocs by (7-61)/(7-62), "
+                  "long-term refs, VUI+HRD, range/multilayer/3D/SCC extensions, extension data), C15_hevc_dims (ImageSize = "
+                  "conformance-window cropping), C15_hevc_pps (tiles, deblocking, scaling-list skip, range and SCC extensions), "
+                  "C15_hevc_slice (all slice types, first/non-first/dependent segments with slice_segment_address of "
+                  "Ceil(Log2(PicSizeInCtbsY)) bits, RPS coded in the slice or selected from the SPS incl. inter-predicted sets, "
+                  "long-term entries, NumPicTotalCurr, ref_pic_lists_modification, pred_weight_table, entry points, header "
+                  "extension, byte_alignment; arbitrary maps incl. pps id != sps id; Size = bytes of the escaped NAL unit that "
+                  "hold the header), C15_hevc_confrec_create / _encode / _roundtrip and C15_hevc_codec_string. "
+                  "EXPLORED only (correspondence + search on generated and captured inputs, no theorem): mutated / truncated NAL "
+                  "units and records (model = code on the outcome class and values), the EBSP-reader instance of the models. "
+                  "NOT modelled: the HEVC PPS multilayer and 3D extensions, the VPS parser, mp4 sample-entry construction "
+                  "(mp4/initsegment.go) - for them the property is not decided by this check.",
+    "level_note": "Trusted: Coq kernel, extraction, OCaml/Go glue; the hand-written serialisers and expected values of C15Spec.v, "
+                  "C15AvcConfSpec.v, C15HevcSpec.v, C15HevcConfSpec.v (my transcription of the syntax tables of ISO/IEC 14496-10 "
+                  "7.3.2-7.3.3, 23008-2 7.3 / E.2 and 14496-15 5.3.3.1.2 / 8.3.3.1.2 / E.3; cross-checked on every run against the "
+                  "real parsers and on the parameter sets, slice segments and avcC/hvcC records captured from the repository's test "
+                  "data); the hand transcriptions C15Model.v, C15AvcConfModel.v, C15HevcModel.v, C15HevcConfModel.v (+ the C16 model "
+                  "of DecodeHEVCDecConfRec) of the Go code, tied to /repo by the correspondence on generated inputs only. The bit "
+                  "reader in the proofs is the ideal bit-list reader; the correspondence additionally runs the C13 EBSP-reader "
+                  "instance on every case. Unexported state (ShortTermRPS.numUsedByCurrPic) is observed only through its effect on "
+                  "the slice header. Seven defects found by this check were repaired in /repo (known_findings/C15.json).",
 }
 
 
@@ -71,7 +88,7 @@ def run(ctx):
     d = os.path.join(common.BUILD, "c15")
     os.makedirs(d, exist_ok=True)
     # generation by the model side
-    n = ctx.n(2500, 50000)
+    n = ctx.n(2500, 40000)
     rc, gen, e = sh2("ulimit -s unlimited 2>/dev/null; exec '%s'" % model,
                      stdin=("GEN\t%d\t%d\n" % (ctx.seed, n)).encode(), timeout=3000)
     if rc != 0:
